@@ -63,10 +63,17 @@ func NewServer(ds storage.OpenFGADatastore, opts ...server.OpenFGAServiceV1Optio
 	return server.MustNewServerWithOpts(all...)
 }
 
+// WrapDS, when set (before any NewEnv; process-global, not synchronised), is applied to the memory
+// datastore of every new environment - e.g. shapes.Recorder.Wrap to record the shapes of all reads.
+var WrapDS func(storage.OpenFGADatastore) storage.OpenFGADatastore
+
 // NewEnv creates a server on a fresh memory datastore, one store, and writes the model.
 // It returns (nil, err) when the model is rejected by the server.
 func NewEnv(m *ref.Model, opts ...server.OpenFGAServiceV1Option) (*Env, error) {
-	ds := memory.New()
+	var ds storage.OpenFGADatastore = memory.New()
+	if WrapDS != nil {
+		ds = WrapDS(ds)
+	}
 	s := NewServer(ds, opts...)
 	e := &Env{S: s, DS: ds, M: m}
 	if err := e.NewStore(); err != nil {
@@ -325,9 +332,39 @@ func Sweep(r *core.Report, models []*ref.Model, o SweepOpts, fn func(e *Env, w *
 						panic(fmt.Sprintf("delete: %v", err))
 					}
 				}
+				// Two tuples of one (object, relation) are rows of the same object for object-ordered
+				// reads; which one a backend returns first depends on the insertion order: such worlds are
+				// also run with the tuples written one by one in the opposite order.
+				if !o.FreshStore && lf == nil && sharesObjectRelation(ts) {
+					rev := make([]ref.Tuple, len(ts))
+					for i, t := range ts {
+						rev[len(ts)-1-i] = t
+					}
+					for _, t := range rev {
+						if err := env.Write([]ref.Tuple{t}, env.ModelID); err != nil {
+							panic(fmt.Sprintf("write: %v", err))
+						}
+					}
+					r.Count("worlds_rerun_in_reverse_insertion_order", 1)
+					fn(env, &ref.World{M: m, Tuples: rev, U: o.U})
+					if err := env.Delete(rev, env.ModelID); err != nil {
+						panic(fmt.Sprintf("delete: %v", err))
+					}
+				}
 			})
 		}
 	})
+}
+
+func sharesObjectRelation(ts []ref.Tuple) bool {
+	for i := range ts {
+		for j := i + 1; j < len(ts); j++ {
+			if ts[i].Obj == ts[j].Obj && ts[i].Rel == ts[j].Rel {
+				return true
+			}
+		}
+	}
+	return false
 }
 
 func (e *Env) PermOrModel() string {
